@@ -417,8 +417,8 @@ func (d *DBFT[H]) createAndCheckBlock() bool {
 	return true
 }
 
-// updateExistingPayloads is called _only_ from onPrepareRequest, it validates
-// payloads we may have received before PrepareRequest.
+// updateExistingPayloads is called from onPrepareRequest and sendPrepareRequest,
+// it validates payloads we may have received before PrepareRequest.
 func (d *DBFT[H]) updateExistingPayloads(msg ConsensusPayload[H]) {
 	for i, m := range d.PreparationPayloads {
 		if m != nil && m.Type() == PrepareResponseType {
